@@ -174,3 +174,10 @@ if _os.path.exists(_p):
     for _k, _v in _json.load(open(_p)).items():
         if _k in CHECKS:
             CHECKS[_k].update(_v)
+
+# after the false-alarm audit (DESIGN 4.5, 9.1): what gates is what the statement demands
+for _k, _c in CHECKS.items():
+    if _k != "C05" and "SPEC-DRIFT" not in _c["note"]:
+        _c["note"] = _c["note"].rstrip() + (" Two-level judging (DESIGN 4.5): an observation the code model cannot explain is a violation only if the "
+                                            "property judge / the named leniencies also reject it; otherwise it is printed as SPEC-DRIFT, kept in the "
+                                            "evidence and does not gate (per-check list in DESIGN 9.1).")
